@@ -230,9 +230,6 @@ def readBodies (file : Bytes) : List Smp → Nat → Option (List Smp)
     else
       let n := m.len * frameBytes m.flg
       if m.len ≥ 4 ∧ ((file.drop (pos + 4)).take 4 = str "OggS") then none
-      -- `is_ogg_sample` probes 8 bytes; when fewer remain the stream is left at EOF and the sample is
-      -- dropped (finding: a final sample of 4..7 bytes is lost) : not modelled
-      else if m.len ≥ 4 ∧ pos + 8 > file.length then none
       else if pos + n > file.length then none
       else
         let (lps, lpe, flg) := loopSanity m.len m.lps m.lpe m.flg
@@ -250,15 +247,18 @@ def keymapOf (nsm : Nat) (full : Bool) (b : Bytes) : List Nat :=
 def readIns (file : Bytes) : (n : Nat) → (pos : Nat) → (sid : Nat) → Option (List Ins × List Smp)
   | 0, _, _ => some ([], [])
   | n + 1, pos, sid =>
-    let h := (file.drop pos).take 33
-    if h.length < 33 then some (List.replicate (n + 1) emptyIns, [])   -- short read: remaining instruments stay empty
+    let h0 := (file.drop pos).take 33
+    -- at least the 29-byte header must be there; the 4 bytes of "sample header size" may be cut off by EOF
+    if h0.length < 29 then some (List.replicate (n + 1) emptyIns, [])   -- short read: remaining instruments stay empty
     else
+      let h := padTo 33 h0
       let size := rd32le (h.take 4)
       let nsm := rd16le ((h.drop 27).take 2)
       let shsz := rd32le ((h.drop 29).take 4)
       let name := adjustString (copyAdjust 22 ((h.drop 4).take 22))
       if size < 29 ∨ size ≥ 0x80000000 then none
       else if nsm > 32 ∨ (nsm > 0 ∧ shsz > 0x100) then none
+      else if nsm > 0 ∧ h0.length < 33 then none        -- truncated file: not modelled
       else if nsm = 0 then
         if pos + size > file.length then none
         else (readIns file n (pos + size) sid).map fun (is, ss) => ({ name := name, subs := [] } :: is, ss)
@@ -351,22 +351,8 @@ def SmpOk (m : Smp) : Prop :=
   ((storePcm m.flg m.len m.pcm).drop 4).take 4 ≠ str "OggS"
 instance (m : Smp) : Decidable (SmpOk m) := by unfold SmpOk; infer_instance
 
-/-- every sample of at least 4 frames is followed by at least 8 more file bytes (its own included) -/
-def tailOk : List Smp → Bool
-  | [] => true
-  | m :: ms => (decide (m.len < 4) || decide (((m :: ms).map fun x => x.len * frameBytes x.flg).sum ≥ 8)) && tailOk ms
-
-/-- the two excluded regions (genuine loader defects, see `C19_xm_counterexample_*`): the file must not end
-in an empty instrument with the 29-byte header that carries a name, nor in a sample of 4..7 bytes -/
-def EndOk (s : Module) (o : Opts) : Prop :=
-  match s.ins.getLast? with
-  | none => True
-  | some x => (x.subs = [] → o.emptyInsSize = 29 → x.name = []) ∧ tailOk (insSmps s.smps x) = true
-instance (s : Module) (o : Opts) : Decidable (EndOk s o) := by
-  unfold EndOk; split <;> infer_instance
-
 def WellFormed (s : Module) (o : Opts) : Prop :=
-  EndOk s o ∧ NameOk 20 s.name ∧ o.tracker.take 6 ≠ str "MED2XM" ∧ (1 ≤ s.chn ∧ s.chn ≤ 64) ∧
+  NameOk 20 s.name ∧ o.tracker.take 6 ≠ str "MED2XM" ∧ (1 ≤ s.chn ∧ s.chn ≤ 64) ∧
   (1 ≤ s.orders.length ∧ s.orders.length ≤ 256) ∧ (∀ x ∈ s.orders, x.toNat < s.pats.length) ∧
   s.pats.length ≤ 256 ∧ (∀ p ∈ s.pats, PatOk s.chn p) ∧ s.ins.length ≤ 255 ∧ InssOk 0 s.ins ∧
   s.smps.length = (s.ins.map (·.subs.length)).sum ∧ (∀ m ∈ s.smps, SmpOk m) ∧
